@@ -20,8 +20,17 @@ import (
 
 func buildPlugin(kind string, w *fakes.KMSWorld, regions []string, pref string) (appencryption.KeyManagementService, error) {
 	arn := map[string]string{}
-	for _, r := range regions {
-		arn[r] = w.Regions[r].ARN
+	for r, id := range w.ARNMap() {
+		arn[r] = id
+	}
+	for r := range arn {
+		keep := false
+		for _, x := range regions {
+			keep = keep || x == r
+		}
+		if !keep {
+			delete(arn, r)
+		}
 	}
 	if kind == "v1" {
 		k, err := v1kms.NewAWS(aead.NewAES256GCM(), pref, arn)
@@ -46,9 +55,14 @@ func TestAWSPluginsWipeDataKey(t *testing.T) {
 	ctx := context.Background()
 	regionsAll := []string{"us-west-2", "us-east-1", "eu-west-1"}
 	var total, nontrivial int64
-	for n := 1; n <= 3; n++ {
-		regions := regionsAll[:n]
+	for n := 1; n <= 4; n++ {
+		// the fourth pass: three regions again, the application names its keys by alias ARN (a response names the key by its key ARN)
+		regions := regionsAll[:min(n, 3)]
 		w := fakes.NewKMSWorld(regions)
+		if n == 4 {
+			w.UseAliases()
+		}
+		n := len(regions)
 		for _, kind := range []string{"v1", "v2"} {
 			for _, pref := range regions {
 				p, err := buildPlugin(kind, w, regions, pref)
